@@ -68,7 +68,7 @@ def _kind(e, kind):
 def impl(line: str, xof, xtok, kind) -> str:
     t = line.split(" ")
     if t[0] == "shake256":
-        return "ok " + (hashlib.shake_256(bytes.fromhex(t[1])).digest(int(t[2])).hex() or "_")
+        return "ok " + (hashlib.shake_256(b"" if t[1] == "_" else bytes.fromhex(t[1])).digest(int(t[2])).hex() or "_")
     forced, x, app = t[1], xof(t[2:8]), t[8]
     a = [None if v == "none" else int(v) for v in t[9:]]
     try:
